@@ -100,7 +100,9 @@ def do_spec(c):
         dv["time"] = ((), np.datetime64(c["meta"]["time"][0], "s").astype("datetime64[ns]"))
     ds = xarray.Dataset(data_vars=dv, coords=coords)
     s1 = FrequencySpectrum(ds)
-    s2 = s1.as_frequency_direction_spectrum(c["n"], method=c["method"], **kw_of(c))
+    # the number of directions as a Python int or as a numpy integer (an element of an integer array)
+    ndir = {"int": int, "int64": np.int64, "int32": np.int32}[c.get("ntype", "int")](c["n"])
+    s2 = s1.as_frequency_direction_spectrum(ndir, method=c["method"], **kw_of(c))
     back = s2.as_frequency_spectrum()
     res = {
         "cls": type(s2).__name__,
